@@ -121,3 +121,35 @@ Definition mov_ok (w : Z) (i : binstr) (mn mx live : Z) (code : list mins) : boo
       code_eqb code (mov_template sz sh d probe live (find_fn code))
   | _ => false
   end.
+
+(** ** the budget check emitted before every branch in limited mode ([emit_limit_check]):
+    load the budget ([cxt+24]), leave through the termination path if it is below 2 (unsigned),
+    otherwise decrement it and store it back *)
+Inductive lins := LLoadBudget | LCmpRax (c : Z) | LJbTerm | LDecRax | LStoreBudget.
+Record lst := { l_rax : Z; l_budget : Z; l_below : bool }.
+
+Definition lstep (st : lst) (i : lins) : lst * bool :=
+  match i with
+  | LLoadBudget => ({| l_rax := l_budget st; l_budget := l_budget st; l_below := l_below st |}, false)
+  | LCmpRax c => ({| l_rax := l_rax st; l_budget := l_budget st; l_below := (l_rax st mod 2 ^ 64 <? c mod 2 ^ 64) |}, false)
+  | LJbTerm => (st, l_below st)
+  | LDecRax => ({| l_rax := l_rax st - 1; l_budget := l_budget st; l_below := l_below st |}, false)
+  | LStoreBudget => ({| l_rax := l_rax st; l_budget := l_rax st; l_below := l_below st |}, false)
+  end.
+Fixpoint lrun (code : list lins) (st : lst) : lst * bool :=
+  match code with
+  | [] => (st, false)
+  | i :: rest => let '(st', ex) := lstep st i in if ex then (st', true) else lrun rest st'
+  end.
+
+Definition lins_eqb (a b : lins) : bool :=
+  match a, b with
+  | LLoadBudget, LLoadBudget | LJbTerm, LJbTerm | LDecRax, LDecRax | LStoreBudget, LStoreBudget => true
+  | LCmpRax x, LCmpRax y => x =? y
+  | _, _ => false
+  end.
+Definition limit_ok (code : list lins) : bool :=
+  match code with
+  | [a; b; c; d; e] => lins_eqb a LLoadBudget && lins_eqb b (LCmpRax 2) && lins_eqb c LJbTerm && lins_eqb d LDecRax && lins_eqb e LStoreBudget
+  | _ => false
+  end.
